@@ -173,7 +173,8 @@ def _shard(arg):
     def cases(draw):
         b = draw(st.sampled_from(["zero4D_1", "cube4D_4", "cube4D_7", "cube4D_8", "cube4D_12", "randomQ_5", "randomQ_9", "randomQ_12"]))
         o = draw(st.sampled_from(["zero3D_1", "ico_2", "ico_5", "ico_12", "ico_20", "cube3D_4", "cube3D_9", "randomS_7", "randomS_16"]))
-        t = draw(st.sampled_from(["[0.2, 0.3]", "[0.2, 0.3, 0.4]", "[0.15, 0.3, 0.35, 0.6]", "linspace(0.3, 0.9, 3)"]))
+        t = draw(st.sampled_from(["[0.2, 0.3]", "[0.2, 0.3, 0.4]", "[0.15, 0.3, 0.35, 0.6]", "linspace(0.3, 0.9, 3)",
+                                  "[0.8, 1.6, 2.4, 3.2]", "[1.5, 2.0, 3.5]", "[4.0, 6.5]"]))
         m1_n = draw(st.integers(1, 4))
         m1 = {"elements": [draw(st.sampled_from(ELEMENTS)) for _ in range(m1_n)],
               "coords": [[draw(st.integers(-1500, 1500)) / 1000 + 0.37 * k for _ in range(3)] for k in range(m1_n)], "fmt": "xyz"}
@@ -220,7 +221,7 @@ def replay(case):
 def run(tier):
     total, max_frames = (192, 20) if tier == "quick" else (3200, 40)
     res = merge_results(pmap(_shard, [(s, total // 16, max_frames) for s in range(16)]))
-    rule = (f"Hypothesis: grid from 8 rotation grids x 9 direction grids x 4 radial grids (n_t>=2); molecule 2 with 3..9 atoms, three "
+    rule = (f"Hypothesis: grid from 8 rotation grids x 9 direction grids x 7 radial grids (n_t>=2, outer boundary 0.35 .. 7.75 nm); molecule 2 with 3..9 atoms, three "
             f"distinct principal moments (relative gaps >= 5 %), planar or generic, atoms in random order, off-centre, .xyz or .gro; "
             f"1..{max_frames} placements with rotation from a normalised integer quaternion, direction from a normalised integer "
             f"vector, radius in (0.02, 1.3] x outer boundary, or the grid's own pseudotrajectory (one case in four); both settings of "
